@@ -60,7 +60,7 @@ def step (_ : Unit) (ws : List String) : Unit × String :=
   | ["copy", w, m, s] =>
     let way : Option CopyWay := match w with | "shallow" => some .shallow | "deep" => some .deep | _ => none
     match way, mechOf m, seedOf s with
-    | some w, some m, some s => ((), srcStr (copySrc w (mechRng m s)))
+    | some w, some m, some s => ((), srcStr (copySrc w m s))
     | _, _, _ => ((), "bad-op")
   | ["plan", e, s] =>
     match entryOf e, seedOf s with
